@@ -60,7 +60,7 @@ type harness struct {
 	gen, stray atomic.Int64
 	stDefs     []*stageDef
 	cache      map[string]funcGen.Func[value.Value]
-	generate func(src string, args ...string) (funcGen.Func[value.Value], error)
+	generate   func(src string, args ...string) (funcGen.Func[value.Value], error)
 }
 
 func newHarness() *harness {
@@ -1016,7 +1016,7 @@ func main() {
 	bex.Main(&bex.Check{
 		ID:    "C08",
 		Level: "exploration",
-		Rule: "every enumerated pipeline is generated once (in the generated text every counting call tickN(x) is tickN(g,x): g is the generation of the evaluation, calls of an older generation are ignored) and evaluated on the real code for every (k, source length, failing call); closure calls are counted per stage by impure host functions and compared with the bounds of the declarative demand model (needed <= calls <= allowed), the result with the eager reference on the needed prefix: a failing call inside the needed prefix must surface, one behind it (read-ahead zone included) must not. distinct_nontrivial = executed cases in which at least one source element has to be evaluated and at least one must stay unevaluated, plus unconsumed pipelines whose later forcing does call closures, plus coop scenarios with library goroutines. Coop spaces: evaluations = scenarios, each explored over all interleavings (coop-timed: all that respect the timing assumption)",
+		Rule:  "every enumerated pipeline is generated once (in the generated text every counting call tickN(x) is tickN(g,x): g is the generation of the evaluation, calls of an older generation are ignored) and evaluated on the real code for every (k, source length, failing call); closure calls are counted per stage by impure host functions and compared with the bounds of the declarative demand model (needed <= calls <= allowed), the result with the eager reference on the needed prefix: a failing call inside the needed prefix must surface, one behind it (read-ahead zone included) must not. distinct_nontrivial = executed cases in which at least one source element has to be evaluated and at least one must stay unevaluated, plus unconsumed pipelines whose later forcing does call closures, plus coop scenarios with library goroutines. Coop spaces: evaluations = scenarios, each explored over all interleavings (coop-timed: all that respect the timing assumption)",
 		Assumptions: []string{
 			"read-ahead allowance as in DESIGN.md Appendix B: every stage (and the consumer; multiUse counts as consumer + copy stage) may request one element more than the demand model says; the bounds compose through the transfer functions. Informational counter source_calls_equal_exact_prediction: with read-ahead only at a completely consumed top(n) and at the copy loop of multiUse the source demand is predicted exactly",
 			"an 'infinite' source is numbers(10^11); its demand is analysed on the first 40 elements, a demand not satisfied there counts as unbounded and the case is excluded (counter infinite_source_cases_without_finite_demand)",
